@@ -23,7 +23,10 @@ Tie/oracle : random and directed sequential histories on the real library over {
              delete_files / append_data / expire_snapshots (recorded under a single operation label), delete_files,
              expire_snapshots, retention-count pruning, delete_snapshot of the oldest / an intermediate / the parent of the current /
              the current snapshot (survivors' parents are repointed), garbage_collect(0 | 1 h) with files on either side of the
-             cutoff, failed commit of each of these}; half of the random histories run a collection after EVERY step.  After every
+             cutoff, failed commit of each of these -- failing cleanly before the pointer write, or with the pointer write LANDED
+             but reported as failed (ambiguous commit on a backend without atomic write failures; interrupt right after the flip)};
+             half of the random histories run a collection after EVERY step; a third run every transaction on ONE reused
+             Transaction object (failure sequences on it: oracle only, the handler tables are C04's model).  After every
              step and after every collection every retained snapshot is re-read by an independent reader and compared with the
              content recorded when it was committed; lookup by id, lookup by timestamp (at, between and outside all snapshot
              timestamps; equal timestamps included) and the repointed current snapshot are compared with an independent reference.
@@ -555,7 +558,8 @@ def run(ctx) -> None:
     ctx.rule = ("random sequential histories over {append, multi-file append, ONE transaction mixing delete_files / append_data / "
                 "expire_snapshots, delete_files (either path spelling), expire_snapshots, retention-count pruning, delete_snapshot of "
                 "the oldest / an intermediate / the parent of the current / the current snapshot, garbage_collect(0|1h) with files on "
-                "either side of the cutoff, failed commit of each of these}, half of them with a collection after EVERY step, with a "
+                "either side of the cutoff, failed commit of each of these (clean / pointer write landed but reported failed / interrupt after "
+                "the flip)}, half of them with a collection after EVERY step, a third on one reused Transaction object, with a "
                 "scripted clock (equal timestamps frequent); every retained snapshot re-read after every step and after every "
                 "collection; distinct = (seed, step)")
     ctx.trusted_base += ["harness/props/c09.py + harness/lib/protocol.py independent reader (json, fastavro, pyarrow)",
